@@ -393,6 +393,18 @@ def meek_definitions(rep, prog):
             rep.unk("RULES." + name, fwhere(f), "%s is not a set predicate over %s: %s" % (name, [fmt(a) for a in atoms_], e.why))
 
 
+def early_answer(rets):
+    """a `return <computed value>` inside a loop of an existential search: the first element for which it is reached gives the answer (possibly False) and
+    the remaining elements are never examined.  Not counted: constants, and a value that was just tested true on the way (`if hit: return hit`)."""
+    for r_ in rets:
+        if is_const(r_.value) or not getattr(r_, "loops", ()):
+            continue
+        if any(pol is True and cnd == r_.value for cnd, pol in literals(r_.path)):
+            continue
+        return r_
+    return None
+
+
 def quantified_rules(rep, prog):
     """rule_3 and rule_4 quantify over elements; decided role by role against their definitions (Meek 1995, restated in the
     source comments).  rule_3(i, j): two distinct, non-adjacent members k, l of n(i) & pa(j).  rule_4(i, j): some h in n(i) that is
@@ -490,7 +502,10 @@ def quantified_rules(rep, prog):
             ok = both and distinct and test_ok
             why = "witnesses from n(i) & pa(j): %s; distinct: %s; non-adjacency test k not in adj(l): %s" % (both, distinct, test_ok)
     shape3 = len(trues) == 1 and len(falses) == 1 and len(rets) == 2 and not falses[0].path
-    if undecided and ok:
+    ea = early_answer(rets)
+    if ea is not None:
+        rep.bad("RULES.rule_3", fwhere(f, ea.node), "rule_3 returns a computed answer (%s) from inside its search loop: the first candidate reached decides, the others are never examined" % fmt(ea.value)[:60])
+    elif undecided and ok:
         rep.unk("RULES.rule_3", fwhere(f), "rule_3: " + undecided)
     elif not shape3 and any(not is_const(r_.value) for r_ in rets):
         # the rule computes its answer as an expression (a vectorised test, a set comparison) instead of searching for witnesses: not read
@@ -558,7 +573,10 @@ def quantified_rules(rep, prog):
                 undecided = undecided or "the union of the parents of Ks is not spelled as reduce(lambda acc, k: acc | pa(k, A), Ks, set())"
                 ok = True
     shape4 = len(trues) == 1 and len(falses) == 1 and len(rets) == 2 and not falses[0].path
-    if undecided and ok:
+    ea = early_answer(rets)
+    if ea is not None:
+        rep.bad("RULES.rule_4", fwhere(f, ea.node), "rule_4 returns a computed answer (%s) from inside its search loop: the first candidate reached decides, the others are never examined" % fmt(ea.value)[:60])
+    elif undecided and ok:
         rep.unk("RULES.rule_4", fwhere(f), "rule_4: " + undecided)
     elif not shape4 and any(not is_const(r_.value) for r_ in rets):
         rep.unk("RULES.rule_4", fwhere(f), "rule_4 is not written as a search that returns True at a witness and False at the end: not read")
